@@ -196,4 +196,341 @@ theorem C03_and_operand_hull (b : α) (self : Bounds α) (ops : List (Opd α)) (
       exact ⟨xs, (feasible_iff_inBox b self ops hwf xs).mp hf⟩)).2
     exact ⟨xs, ⟨h1, h3, h4⟩, h2⟩
 
+/-! ## Or, by negation duality -/
+
+theorem writeBack_negB (o : Opd α) (p : Bounds α) :
+    writeBack o (negB p) = negB (writeBack o.neg p) := by
+  unfold writeBack
+  rw [← aggregate_negB]
+  simp [negB, Opd.neg]
+
+/-- Or up/down is And up/down on the negated connective and operands, negated back -/
+theorem orUpDown_eq (t : Bool) (b : α) (self : Bounds α) (ops : List (Opd α))
+    (hw : ∀ o ∈ ops, 0 ≤ o.w) :
+    orUpDown t b self ops = (negB (andUpDown b (negB self) (ops.map Opd.neg)).1,
+      (andUpDown b (negB self) (ops.map Opd.neg)).2.map negB) := by
+  have h1 : (aggregate .both self (orUp t b ops)).1
+      = negB (aggregate .both (negB self) (andUp b (ops.map Opd.neg))).1 := by
+    rw [orUp_eq_negB t b ops hw, ← aggregate_negB, negB_negB]
+  unfold orUpDown andUpDown orDown
+  simp only [h1]
+  congr 1
+  rw [List.zipWith_map_right, List.zipWith_map_left, List.map_zipWith]
+  simp only [writeBack_negB, negB_lo, negB_hi, sub_sub_cancel]
+
+theorem map_one_sub_involutive (ys : List α) : (ys.map (1 - ·)).map (1 - ·) = ys := by
+  simp [List.map_map]
+
+theorem inBounds_neg_iff (ops : List (Opd α)) (xs : List α) :
+    InBounds (ops.map Opd.neg) (xs.map (1 - ·)) ↔ InBounds ops xs := by
+  unfold InBounds
+  rw [List.forall₂_map_left_iff, List.forall₂_map_right_iff]
+  constructor <;> intro h <;> refine List.Forall₂.imp ?_ h <;> intro o x hox <;>
+    simp only [Opd.neg] at hox ⊢ <;> constructor <;> linarith [hox.1, hox.2]
+
+theorem orFeasible_iff (b : α) (self : Bounds α) (ops : List (Opd α)) (xs : List α) :
+    OrFeasible b self ops xs ↔ Feasible b (negB self) (ops.map Opd.neg) (xs.map (1 - ·)) := by
+  unfold OrFeasible Feasible
+  rw [inBounds_neg_iff, orVal_eq]
+  simp only [negB]
+  constructor <;> rintro ⟨h1, h2, h3⟩ <;> exact ⟨h1, by linarith, by linarith⟩
+
+theorem WfIn.neg {self : Bounds α} {ops : List (Opd α)} (h : WfIn self ops) :
+    WfIn (negB self) (ops.map Opd.neg) := by
+  obtain ⟨h1, h2, h3, h4⟩ := h
+  refine ⟨?_, ?_, ?_, ?_⟩
+  · intro o' ho'
+    obtain ⟨o, ho, rfl⟩ := List.mem_map.mp ho'
+    obtain ⟨a, b, c, d⟩ := h1 o ho
+    simp only [Opd.neg]
+    exact ⟨a, by linarith, by linarith, by linarith⟩
+  all_goals simp only [negB]; linarith
+
+/-- feasible Or assignments are exactly the complements of the feasible assignments of the dual
+And problem -/
+theorem exists_orFeasible_iff (b : α) (self : Bounds α) (ops : List (Opd α)) (P : List α → Prop) :
+    (∃ xs, OrFeasible b self ops xs ∧ P xs)
+      ↔ ∃ ys, Feasible b (negB self) (ops.map Opd.neg) ys ∧ P (ys.map (1 - ·)) := by
+  constructor
+  · rintro ⟨xs, h, hp⟩
+    exact ⟨xs.map (1 - ·), (orFeasible_iff b self ops xs).mp h, by
+      rwa [map_one_sub_involutive]⟩
+  · rintro ⟨ys, h, hp⟩
+    refine ⟨ys.map (1 - ·), (orFeasible_iff b self ops _).mpr ?_, hp⟩
+    rwa [map_one_sub_involutive]
+
+theorem orUpDown_length (t : Bool) (b : α) (self : Bounds α) (ops : List (Opd α)) :
+    (orUpDown t b self ops).2.length = ops.length := by
+  simp [orUpDown, orDown, andDown]
+
+/-- **C03, Or, the connective itself** (both activation variants). -/
+theorem C03_or_operator_hull (t : Bool) (b : α) (self : Bounds α) (ops : List (Opd α))
+    (hwf : WfIn self ops) (hfeas : ∃ xs, OrFeasible b self ops xs) :
+    let r := (orUpDown t b self ops).1
+    (∀ xs, OrFeasible b self ops xs → r.lo ≤ orVal b ops xs ∧ orVal b ops xs ≤ r.hi) ∧
+    (∃ xs, OrFeasible b self ops xs ∧ orVal b ops xs = r.lo) ∧
+    (∃ xs, OrFeasible b self ops xs ∧ orVal b ops xs = r.hi) := by
+  have hfeas' : ∃ ys, Feasible b (negB self) (ops.map Opd.neg) ys := by
+    have := (exists_orFeasible_iff b self ops (fun _ => True)).mp (by simpa using hfeas)
+    simpa using this
+  obtain ⟨k1, k2, k3⟩ := C03_and_operator_hull b (negB self) (ops.map Opd.neg) hwf.neg hfeas'
+  rw [orUpDown_eq t b self ops hwf.weights]
+  simp only [negB_lo, negB_hi]
+  refine ⟨?_, ?_, ?_⟩
+  · intro xs hf
+    have := k1 _ ((orFeasible_iff b self ops xs).mp hf)
+    rw [orVal_eq]
+    constructor <;> linarith [this.1, this.2]
+  · rw [exists_orFeasible_iff]
+    obtain ⟨ys, hf, hv⟩ := k3
+    exact ⟨ys, hf, by rw [orVal_eq, map_one_sub_involutive, hv]⟩
+  · rw [exists_orFeasible_iff]
+    obtain ⟨ys, hf, hv⟩ := k2
+    exact ⟨ys, hf, by rw [orVal_eq, map_one_sub_involutive, hv]⟩
+
+/-- **C03, Or, no feasible assignment**: the upward step crosses the bounds of the connective. -/
+theorem C03_or_infeasible (t : Bool) (b : α) (self : Bounds α) (ops : List (Opd α))
+    (hwf : WfIn self ops) (hinf : ¬ ∃ xs, OrFeasible b self ops xs) :
+    (orUpDown t b self ops).1.lo > (orUpDown t b self ops).1.hi ∧
+      isContra 1 (orUpDown t b self ops).1 = true := by
+  have hinf' : ¬ ∃ ys, Feasible b (negB self) (ops.map Opd.neg) ys := by
+    intro h
+    apply hinf
+    have := (exists_orFeasible_iff b self ops (fun _ => True)).mpr (by simpa using h)
+    simpa using this
+  have h := (C03_and_infeasible b (negB self) (ops.map Opd.neg) hwf.neg hinf').1
+  have hfst := andUpDown_fst b (negB self) (ops.map Opd.neg) hwf.neg
+  have hm := andUp_mem01 b (ops.map Opd.neg)
+  have hcross : (orUpDown t b self ops).1.hi < (orUpDown t b self ops).1.lo := by
+    rw [orUpDown_eq t b self ops hwf.weights]
+    simp only [negB_lo, negB_hi]
+    linarith
+  refine ⟨hcross, isContra_one_of_crossed _ ?_ ?_ hcross⟩
+  · rw [orUpDown_eq t b self ops hwf.weights, hfst]
+    simp only [negB_lo, negB_hi, sub_nonneg]
+    exact max_le (by linarith [hwf.2.1, hwf.2.2.1]) hm.2.1
+  · rw [orUpDown_eq t b self ops hwf.weights, hfst]
+    simp only [negB_lo, negB_hi]
+    have : 0 ≤ min (1 - self.lo) (andUp b (ops.map Opd.neg)).hi :=
+      le_min (by linarith [hwf.2.2.1, hwf.2.2.2]) hm.2.2.1
+    linarith
+
+/-- **C03, Or, the operands** (both activation variants). -/
+theorem C03_or_operand_hull (t : Bool) (b : α) (self : Bounds α) (ops : List (Opd α))
+    (hwf : WfIn self ops) (hfeas : ∃ xs, OrFeasible b self ops xs) (k : Nat) (r : Bounds α)
+    (hr : (orUpDown t b self ops).2[k]? = some r) :
+    (∀ xs x, OrFeasible b self ops xs → xs[k]? = some x → r.lo ≤ x ∧ x ≤ r.hi) ∧
+    (∃ xs, OrFeasible b self ops xs ∧ xs[k]? = some r.lo) ∧
+    (∃ xs, OrFeasible b self ops xs ∧ xs[k]? = some r.hi) := by
+  have hfeas' : ∃ ys, Feasible b (negB self) (ops.map Opd.neg) ys := by
+    have := (exists_orFeasible_iff b self ops (fun _ => True)).mp (by simpa using hfeas)
+    simpa using this
+  rw [orUpDown_eq t b self ops hwf.weights] at hr
+  simp only [List.getElem?_map, Option.map_eq_some_iff] at hr
+  obtain ⟨r', hr', rfl⟩ := hr
+  obtain ⟨k1, k2, k3⟩ := C03_and_operand_hull b (negB self) (ops.map Opd.neg) hwf.neg hfeas' k r' hr'
+  simp only [negB_lo, negB_hi]
+  refine ⟨?_, ?_, ?_⟩
+  · intro xs x hf hx
+    have := k1 (xs.map (1 - ·)) (1 - x) ((orFeasible_iff b self ops xs).mp hf) (by simp [hx])
+    constructor <;> linarith [this.1, this.2]
+  · rw [exists_orFeasible_iff]
+    obtain ⟨ys, hf, hv⟩ := k3
+    exact ⟨ys, hf, by simp [hv]⟩
+  · rw [exists_orFeasible_iff]
+    obtain ⟨ys, hf, hv⟩ := k2
+    exact ⟨ys, hf, by simp [hv]⟩
+
+/-! ## Implies, by negation duality: `x → y` is `¬ (x ∧ ¬ y)` -/
+
+theorem andDown_pair (b alpha L U : α) (p q : Opd α) :
+    ∃ pp pq, andDown b alpha L U [p, q] = [pp, pq] := by
+  unfold andDown
+  exact ⟨_, _, rfl⟩
+
+/-- Implies up/down is And up/down on `(x, ¬y)` with the negated connective; the connective and `y`
+are negated back -/
+theorem impliesUpDown_eq (b : α) (self : Bounds α) (x y : Opd α) :
+    ∃ rx ry, (andUpDown b (negB self) [x, y.neg]).2 = [rx, ry] ∧
+      impliesUpDown b self x y = (negB (andUpDown b (negB self) [x, y.neg]).1, [rx, negB ry]) := by
+  have h1 : (aggregate .both self (impliesUp b [x, y])).1
+      = negB (aggregate .both (negB self) (andUp b [x, y.neg])).1 := by
+    rw [impliesUp_eq_negB, ← aggregate_negB, negB_negB]
+  obtain ⟨px, py, h⟩ := andDown_pair b 1
+    (aggregate .both (negB self) (andUp b [x, y.neg])).1.lo
+    (aggregate .both (negB self) (andUp b [x, y.neg])).1.hi x y.neg
+  refine ⟨writeBack x px, writeBack y.neg py, ?_, ?_⟩
+  · simp [andUpDown, h]
+  · unfold impliesUpDown impliesDown andUpDown
+    simp only [h1, negB_lo, negB_hi, sub_sub_cancel, h]
+    simp [writeBack_negB]
+
+theorem impVal_eq (b : α) (x y : Opd α) (vx vy : α) :
+    impVal b x y vx vy = 1 - andVal b [x, y.neg] [vx, 1 - vy] := by
+  unfold impVal andVal andPre wsum
+  rw [← clamp01_one_sub]
+  simp only [List.zipWith_cons_cons, List.zipWith_nil_right, List.sum_cons, List.sum_nil, Opd.neg]
+  congr 1; ring
+
+theorem impFeasible_iff (b : α) (self : Bounds α) (x y : Opd α) (vx vy : α) :
+    ImpFeasible b self x y vx vy ↔ Feasible b (negB self) [x, y.neg] [vx, 1 - vy] := by
+  unfold ImpFeasible Feasible InBounds
+  rw [impVal_eq]
+  simp only [List.forall₂_cons, List.forall₂_nil_left_iff, and_true, Opd.neg, negB_lo, negB_hi]
+  constructor
+  · rintro ⟨h1, h2, h3, h4⟩
+    exact ⟨⟨h1, by linarith [h2.2], by linarith [h2.1]⟩, by linarith, by linarith⟩
+  · rintro ⟨⟨h1, h2, h2'⟩, h3, h4⟩
+    exact ⟨h1, ⟨by linarith, by linarith⟩, by linarith, by linarith⟩
+
+theorem WfIn.impNeg {self : Bounds α} {x y : Opd α} (h : WfIn self [x, y]) :
+    WfIn (negB self) [x, y.neg] := by
+  obtain ⟨h1, h2, h3, h4⟩ := h
+  have hx := h1 x (by simp)
+  have hy := h1 y (by simp)
+  refine ⟨?_, ?_, ?_, ?_⟩
+  · intro o ho
+    simp only [List.mem_cons, List.not_mem_nil, or_false] at ho
+    rcases ho with rfl | rfl
+    · exact hx
+    · simp only [Opd.neg]
+      exact ⟨hy.1, by linarith [hy.2.2.2], by linarith [hy.2.2.1], by linarith [hy.2.1]⟩
+  all_goals simp only [negB_lo, negB_hi]; linarith
+
+/-- feasible Implies assignments `(vx, vy)` correspond to the feasible assignments `[vx, 1 - vy]` of
+the dual And problem -/
+theorem exists_impFeasible_iff (b : α) (self : Bounds α) (x y : Opd α) (P : α → α → Prop) :
+    (∃ vx vy, ImpFeasible b self x y vx vy ∧ P vx vy)
+      ↔ ∃ ys, Feasible b (negB self) [x, y.neg] ys ∧ ∃ a c, ys = [a, c] ∧ P a (1 - c) := by
+  constructor
+  · rintro ⟨vx, vy, h, hp⟩
+    exact ⟨[vx, 1 - vy], (impFeasible_iff b self x y vx vy).mp h, vx, 1 - vy, rfl, by
+      rwa [sub_sub_cancel]⟩
+  · rintro ⟨ys, h, a, c, rfl, hp⟩
+    refine ⟨a, 1 - c, (impFeasible_iff b self x y a (1 - c)).mpr ?_, hp⟩
+    rwa [sub_sub_cancel]
+
+theorem feasible_pair (b : α) (s : Bounds α) (p q : Opd α) (ys : List α)
+    (h : Feasible b s [p, q] ys) : ∃ a c, ys = [a, c] := by
+  obtain ⟨h1, _⟩ := h
+  unfold InBounds at h1
+  cases h1 with
+  | cons _ h2 =>
+    cases h2 with
+    | cons _ h3 =>
+      cases h3
+      exact ⟨_, _, rfl⟩
+
+theorem exists_impFeasible_iff' (b : α) (self : Bounds α) (x y : Opd α) :
+    (∃ vx vy, ImpFeasible b self x y vx vy) ↔ ∃ ys, Feasible b (negB self) [x, y.neg] ys := by
+  have := exists_impFeasible_iff b self x y (fun _ _ => True)
+  simp only [and_true] at this
+  rw [this]
+  constructor
+  · rintro ⟨ys, h, _⟩; exact ⟨ys, h⟩
+  · rintro ⟨ys, h⟩
+    obtain ⟨a, c, rfl⟩ := feasible_pair b _ x y.neg ys h
+    exact ⟨_, h, a, c, rfl⟩
+
+/-- **C03, Implies, the connective itself.** -/
+theorem C03_implies_operator_hull (b : α) (self : Bounds α) (x y : Opd α) (hwf : WfIn self [x, y])
+    (hfeas : ∃ vx vy, ImpFeasible b self x y vx vy) :
+    let r := (impliesUpDown b self x y).1
+    (∀ vx vy, ImpFeasible b self x y vx vy →
+        r.lo ≤ impVal b x y vx vy ∧ impVal b x y vx vy ≤ r.hi) ∧
+    (∃ vx vy, ImpFeasible b self x y vx vy ∧ impVal b x y vx vy = r.lo) ∧
+    (∃ vx vy, ImpFeasible b self x y vx vy ∧ impVal b x y vx vy = r.hi) := by
+  have hfeas' := (exists_impFeasible_iff' b self x y).mp hfeas
+  obtain ⟨k1, k2, k3⟩ := C03_and_operator_hull b (negB self) [x, y.neg] hwf.impNeg hfeas'
+  obtain ⟨rx, ry, _, heq⟩ := impliesUpDown_eq b self x y
+  rw [heq]
+  simp only [negB_lo, negB_hi]
+  refine ⟨?_, ?_, ?_⟩
+  · intro vx vy hf
+    have := k1 _ ((impFeasible_iff b self x y vx vy).mp hf)
+    rw [impVal_eq]
+    constructor <;> linarith [this.1, this.2]
+  · rw [exists_impFeasible_iff b self x y
+      (fun vx vy => impVal b x y vx vy = 1 - (andUpDown b (negB self) [x, y.neg]).1.hi)]
+    obtain ⟨ys, hf, hv⟩ := k3
+    obtain ⟨a, c, rfl⟩ := feasible_pair b _ x y.neg ys hf
+    exact ⟨_, hf, a, c, rfl, by rw [impVal_eq, sub_sub_cancel, hv]⟩
+  · rw [exists_impFeasible_iff b self x y
+      (fun vx vy => impVal b x y vx vy = 1 - (andUpDown b (negB self) [x, y.neg]).1.lo)]
+    obtain ⟨ys, hf, hv⟩ := k2
+    obtain ⟨a, c, rfl⟩ := feasible_pair b _ x y.neg ys hf
+    exact ⟨_, hf, a, c, rfl, by rw [impVal_eq, sub_sub_cancel, hv]⟩
+
+/-- **C03, Implies, no feasible assignment**: the upward step crosses the bounds of the
+connective. -/
+theorem C03_implies_infeasible (b : α) (self : Bounds α) (x y : Opd α) (hwf : WfIn self [x, y])
+    (hinf : ¬ ∃ vx vy, ImpFeasible b self x y vx vy) :
+    (impliesUpDown b self x y).1.lo > (impliesUpDown b self x y).1.hi ∧
+      isContra 1 (impliesUpDown b self x y).1 = true := by
+  have hinf' : ¬ ∃ ys, Feasible b (negB self) [x, y.neg] ys :=
+    fun h => hinf ((exists_impFeasible_iff' b self x y).mpr h)
+  have h := (C03_and_infeasible b (negB self) [x, y.neg] hwf.impNeg hinf').1
+  have hfst := andUpDown_fst b (negB self) [x, y.neg] hwf.impNeg
+  have hm := andUp_mem01 b [x, y.neg]
+  obtain ⟨rx, ry, _, heq⟩ := impliesUpDown_eq b self x y
+  have hcross : (impliesUpDown b self x y).1.hi < (impliesUpDown b self x y).1.lo := by
+    rw [heq]
+    simp only [negB_lo, negB_hi]
+    linarith
+  refine ⟨hcross, isContra_one_of_crossed _ ?_ ?_ hcross⟩
+  · rw [heq, hfst]
+    simp only [negB_lo, negB_hi, sub_nonneg]
+    exact max_le (by linarith [hwf.2.1, hwf.2.2.1]) hm.2.1
+  · rw [heq, hfst]
+    simp only [negB_lo, negB_hi]
+    have : 0 ≤ min (1 - self.lo) (andUp b [x, y.neg]).hi :=
+      le_min (by linarith [hwf.2.2.1, hwf.2.2.2]) hm.2.2.1
+    linarith
+
+/-- **C03, Implies, the operands**: the downward step returns exactly two bounds `rx`, `ry`; they
+contain the values of `x` and `y` in every feasible assignment and all four end points are attained
+in feasible assignments. -/
+theorem C03_implies_operand_hull (b : α) (self : Bounds α) (x y : Opd α) (hwf : WfIn self [x, y])
+    (hfeas : ∃ vx vy, ImpFeasible b self x y vx vy) :
+    ∃ rx ry, (impliesUpDown b self x y).2 = [rx, ry] ∧
+      (∀ vx vy, ImpFeasible b self x y vx vy →
+        (rx.lo ≤ vx ∧ vx ≤ rx.hi) ∧ (ry.lo ≤ vy ∧ vy ≤ ry.hi)) ∧
+      (∃ vx vy, ImpFeasible b self x y vx vy ∧ vx = rx.lo) ∧
+      (∃ vx vy, ImpFeasible b self x y vx vy ∧ vx = rx.hi) ∧
+      (∃ vx vy, ImpFeasible b self x y vx vy ∧ vy = ry.lo) ∧
+      (∃ vx vy, ImpFeasible b self x y vx vy ∧ vy = ry.hi) := by
+  have hfeas' := (exists_impFeasible_iff' b self x y).mp hfeas
+  obtain ⟨rx, ry, hand, heq⟩ := impliesUpDown_eq b self x y
+  obtain ⟨x1, x2, x3⟩ := C03_and_operand_hull b (negB self) [x, y.neg] hwf.impNeg hfeas' 0 rx
+    (by rw [hand]; rfl)
+  obtain ⟨y1, y2, y3⟩ := C03_and_operand_hull b (negB self) [x, y.neg] hwf.impNeg hfeas' 1 ry
+    (by rw [hand]; rfl)
+  refine ⟨rx, negB ry, by rw [heq], ?_, ?_, ?_, ?_, ?_⟩
+  · intro vx vy hf
+    have hf' := (impFeasible_iff b self x y vx vy).mp hf
+    have hx := x1 _ vx hf' rfl
+    have hy := y1 _ (1 - vy) hf' rfl
+    simp only [negB_lo, negB_hi]
+    exact ⟨hx, by linarith [hy.2], by linarith [hy.1]⟩
+  · rw [exists_impFeasible_iff b self x y (fun vx _ => vx = rx.lo)]
+    obtain ⟨ys, hf, hv⟩ := x2
+    obtain ⟨a, c, rfl⟩ := feasible_pair b _ x y.neg ys hf
+    exact ⟨_, hf, a, c, rfl, by simpa using hv⟩
+  · rw [exists_impFeasible_iff b self x y (fun vx _ => vx = rx.hi)]
+    obtain ⟨ys, hf, hv⟩ := x3
+    obtain ⟨a, c, rfl⟩ := feasible_pair b _ x y.neg ys hf
+    exact ⟨_, hf, a, c, rfl, by simpa using hv⟩
+  · rw [exists_impFeasible_iff b self x y (fun _ vy => vy = (negB ry).lo)]
+    obtain ⟨ys, hf, hv⟩ := y3
+    obtain ⟨a, c, rfl⟩ := feasible_pair b _ x y.neg ys hf
+    refine ⟨_, hf, a, c, rfl, ?_⟩
+    have : c = ry.hi := by simpa using hv
+    simp [this]
+  · rw [exists_impFeasible_iff b self x y (fun _ vy => vy = (negB ry).hi)]
+    obtain ⟨ys, hf, hv⟩ := y2
+    obtain ⟨a, c, rfl⟩ := feasible_pair b _ x y.neg ys hf
+    refine ⟨_, hf, a, c, rfl, ?_⟩
+    have : c = ry.lo := by simpa using hv
+    simp [this]
+
 end LNN
